@@ -10,14 +10,16 @@ from checklib import codec
 from gens import docs, sweep, harness
 
 MANIFEST = dict(
-    technique="Coq universal theorem on the lexer/LR model (position formula, induction over the scan) + reflection on the generated scanners + extracted-model correspondence",
+    technique="Coq universal theorems on the lexer/LR/transformer model (position formula by induction over the scan; provenance of every recorded position by a logical predicate over all transformer callbacks) + reflection on the generated scanners + extracted-model correspondence",
     text=("Coq (Props/C08.v): for EVERY text, every token handed to the LR driver lies in the text exactly where its line/column say "
           "(line = 1 + LFs before, column = 1 + characters since the last LF; proved by induction over the scan from a soundness lemma of the backtracking matcher), "
           "the parse tree contains only such tokens, and - re-proved by vm_compute against the scanners Lark compiled from the current grammar - no terminal that Lark skips when counting "
           "newlines can match a line feed. The lexer/LR/transformer model is tied to the code by running the extracted model and the real loads(include_position=True) on generated documents "
           "under random layouts (tabs, CRLF, comments, several keywords per line, values over lines) and on corpus files; the hunter compares the recorded positions with the positions an independent "
-          "renderer wrote each keyword at, and the line/column of validation messages for injected faults. PARTIAL: the transformer's use of the key token and create_message's location logic are covered "
-          "by correspondence and hunter, not by a composed theorem."),
+          "renderer wrote each keyword at, and the line/column of validation messages for injected faults. [universal, Proofs/C08U*.v] for every text and either comment mode every __position__ record of the loaded dictionary "
+          "(own line/column, per-keyword records including repeated keywords, POINTS and CONFIG, value pairs) is the place in the text where a token named like that keyword (or like the block's type) starts; "
+          "REFUTED for the record's own entries when a keyword is itself spelled LINE or COLUMN (known finding). PARTIAL: source order of value positions and create_message's location logic are covered "
+          "by correspondence and hunter, not by a theorem."),
     design_ref="DESIGN.md 7/C08",
     note="C08: Lark's run-time lexer/parser loops and tree builder are modelled (Model/Lexer.v, Model/LR.v) from the objects Lark built for the current grammar (Gen/Grammar.v); CPython `re` on the opcode subset is modelled (Lib/Regex.v).")
 
